@@ -46,8 +46,10 @@ def cases(tier, seed):
     out = []
     for h, sch, mode, flow in itertools.product(HS, ["EF", "RK2", "RK4"], ["diff", "w", "both", "off", "diff+hdiff"], ["stay", "east", "west"]):
         out.append(dict(mode="plug", h=h, scheme=sch, vmode=mode, flow=flow))
+    for h, vm, adv in itertools.product(HS, ["diff", "w", "both"], ["", "EF"]):
+        out.append(dict(mode="reshuffle", h=h, vmode=vm, scheme=adv))
     for mode in ("diff", "w", "both"):
-        for sg in (None, [2, 8, 1, 6]):
+        for sg in (None, [2, 8, 1, 6], [3, 9, 1, 7], [1, 7, 2, 7]):
             out.append(dict(mode="roms", vmode=mode, subgrid=sg))
     return out
 
@@ -175,6 +177,56 @@ def run_plug(case):
     return util.result(evals=2 * n, nontrivial=nt, viol=viols, outcomes=[[vmode, flow]], states=2 * n, transitions=2 * n, sample=dict(case, particles=n))
 
 
+def run_reshuffle(case):
+    """No horizontal motion, but the particle <-> array-slot mapping changes between steps (death + compactify + release
+    with an unchanged particle count): the bottom depth must be that of each particle's own cell at the start of the step."""
+    from ladim.state import State
+    from ladim.timekeeper import TimeKeeper
+    from ladim.tracker import Tracker
+
+    h0, vmode = case["h"], case["vmode"]
+    mods = {}
+    mods["time"] = TimeKeeper(start=world.iso(S0), stop=world.iso(S0 + 100 * DT), dt=DT)
+    mods["state"] = st = State()
+    mods["grid"] = plugin("agrid").Grid(modules=mods, imax=12, jmax=9, dx=100.0, h=h0, hmode="step")
+    n = 6
+    xs = [3.2 if k % 2 == 0 else 6.2 for k in range(n)]
+    hs = [h0 if x < 4.5 else 2 * h0 for x in xs]
+    d = 0.3 * h0
+    dd = np.full(n, d if vmode != "w" else 0.0) * (0.75 if vmode == "both" else 1.0)
+    dw = np.full(n, d if vmode == "w" else (0.25 * d if vmode == "both" else 0.0))
+    mods["forcing"] = fo = plugin("aforce").Forcing(mods, field="still", w=list(dw / DT), record=False)
+    kw = dict(advection=case["scheme"], modules=mods)
+    if vmode in ("diff", "both"):
+        kw["vertdiff"] = 1.0 / (2 * DT)
+    if vmode in ("w", "both"):
+        kw["vertical_advection"] = True
+    tr = Tracker(**kw)
+    mods["tracker"] = tr
+    tr.rng = Script([dd, dd])
+    st.append(X=np.array(xs), Y=np.full(n, 4.2), Z=np.array([0.9 * h for h in hs]))
+    viols = []
+    for step in range(2):
+        mods["time"].update()
+        if step == 1:  # one particle dies, is removed, and another is released: same count, every slot now holds another cell
+            st["alive"][0] = False
+            st.compactify()
+            st.append(X=3.2 if xs[-1] > 4.5 else 6.2, Y=4.2, Z=0.9 * (h0 if xs[-1] > 4.5 else 2 * h0))
+        fo.update()
+        zb, xb = st.Z.copy(), st.X.copy()
+        try:
+            tr.update()
+        except Exception as e:
+            return util.result(viol=[util.viol("exception", f"{case}: {e!r}", case)], nontrivial=1)
+        for k in range(len(st)):
+            hc = h0 if xb[k] < 4.5 else 2 * h0
+            z = reflect(zb[k] + float(dd[k]) + float(dw[k]), hc)
+            got = float(st.Z[k])
+            if (not (-1e-12 <= got <= hc * (1 + 1e-12)) or abs(got - z) > 1e-9 * hc) and not viols:
+                viols.append(util.viol("reshuffle:reflection", f"{case} step {step} slot {k} (x={xb[k]}): Z={got} expected {z} with the bottom {hc} of the particle's own cell", case))
+    return util.result(evals=2 * n, nontrivial=2 * n, viol=viols, outcomes=[["reshuffle", vmode]], states=2 * n, transitions=2 * n, sample=dict(case))
+
+
 def run_roms(case):
     """Slice on the real ROMS Grid: the bottom depth is that of the nearest cell of the loaded (sub)grid."""
     from ladim.ROMS import Grid
@@ -240,4 +292,4 @@ def warmup():
 
 
 def run_case(case):
-    return dict(plug=run_plug, roms=run_roms)[case["mode"]](case)
+    return dict(plug=run_plug, roms=run_roms, reshuffle=run_reshuffle)[case["mode"]](case)
